@@ -8,7 +8,9 @@ package main
 // exempt. Discharged by the generator (boolean goal), not by an SMT query.
 
 import (
+	"fmt"
 	"go/types"
+	"sort"
 	"strings"
 
 	"golang.org/x/tools/go/ssa"
@@ -208,6 +210,96 @@ func (e *Engine) cueDefaultFlowResult() *FuncResult {
 	}
 	ctx.addOblig("unwrap", "simplecue.cueConcreteToScalar:struct-default:every-converted-field-is-recorded-under-its-label", BoolLit(okMap), "internal/simplecue/utils.go")
 	ctx.addOblig("unwrap", "simplecue.cueConcreteToScalar:list-default:every-converted-element-is-appended", BoolLit(okList), "internal/simplecue/utils.go")
+	res.Obligs = ctx.obligs
+	return res
+}
+
+// cueDefaultSinksResult (CUE front end): every default handed to the IR in package simplecue
+// (ast.Default(x), stores to Type.Default) is the value the conversion functions produced
+// (extractDefault / cueConcreteToScalar and the helpers that only select among such values), reaching
+// the sink through extracts and phis only - no further function is applied to it on the way (a
+// "normalisation" of the converted number would alter or re-type the declared default).
+func (e *Engine) cueDefaultSinksResult() *FuncResult {
+	ctx := newCtx(e, e.anyFunction())
+	ctx.fnKey = "c10-cue-default-sinks"
+	res := &FuncResult{Key: "c10-cue-default-sinks", Ctx: ctx}
+	allowedCallee := func(k string) bool {
+		return k == "simplecue.(*generator).extractDefault" || k == "simplecue.cueConcreteToScalar"
+	}
+	var direct func(v ssa.Value, seen map[ssa.Value]bool) bool
+	direct = func(v ssa.Value, seen map[ssa.Value]bool) bool {
+		if seen[v] {
+			return true
+		}
+		seen[v] = true
+		switch x := v.(type) {
+		case *ssa.Const, *ssa.Parameter, *ssa.FreeVar:
+			return true
+		case *ssa.Extract:
+			return direct(x.Tuple, seen)
+		case *ssa.Phi:
+			for _, ed := range x.Edges {
+				if !direct(ed, seen) {
+					return false
+				}
+			}
+			return true
+		case *ssa.ChangeInterface:
+			return direct(x.X, seen)
+		case *ssa.MakeInterface:
+			return direct(x.X, seen)
+		case *ssa.UnOp: // load of a local or of a field that itself holds a default
+			return true
+		case *ssa.Call:
+			if sc := x.Call.StaticCallee(); sc != nil {
+				return allowedCallee(funcKey(sc))
+			}
+			return false
+		}
+		return false
+	}
+	n := 0
+	var keys []string
+	for k := range e.fnByKey {
+		keys = append(keys, k)
+	}
+	sort.Strings(keys)
+	for _, key := range keys {
+		fn := e.fnByKey[key]
+		if !strings.HasPrefix(key, "simplecue.") || !e.inModule(fn) {
+			continue
+		}
+		ord := 0
+		for _, b := range fn.Blocks {
+			for _, in := range b.Instrs {
+				var val ssa.Value
+				switch x := in.(type) {
+				case *ssa.Call:
+					if sc := x.Call.StaticCallee(); sc != nil && funcKey(sc) == "ast.Default" && len(x.Call.Args) == 1 {
+						val = x.Call.Args[0]
+					}
+				case *ssa.Store:
+					if fa, ok := x.Addr.(*ssa.FieldAddr); ok {
+						if pt, ok := fa.X.Type().Underlying().(*types.Pointer); ok {
+							if nt, ok := pt.Elem().(*types.Named); ok && nt.Obj().Pkg() != nil && nt.Obj().Pkg().Name() == "ast" && nt.Obj().Name() == "Type" {
+								if nt.Underlying().(*types.Struct).Field(fa.Field).Name() == "Default" {
+									val = x.Val
+								}
+							}
+						}
+					}
+				}
+				if val == nil {
+					continue
+				}
+				n++
+				p := fn.Prog.Fset.Position(in.Pos())
+				ctx.addOblig("unwrap", fmt.Sprintf("%s:default%d:the-converted-default-reaches-the-IR-unaltered", key, ord), BoolLit(direct(val, map[ssa.Value]bool{})), strings.TrimPrefix(p.String(), e.repo+"/"))
+				ord++
+			}
+		}
+	}
+	ctx.addOblig("unwrap", "simplecue:default-sinks-enumerated", BoolLit(n > 0), fmt.Sprint(n))
 	res.Obligs = ctx.obligs
 	return res
 }
